@@ -117,8 +117,11 @@ func ruleSOwn(c *Ctx) {
 				if got[f] == nil {
 					got[f] = map[string]bool{}
 				}
-				got[f][fn.Name()] = true
-				pos[f+"/"+fn.Name()] = st.Pos()
+				// a helper outside the baseline list writes on behalf of the functions that call it
+				for _, af := range attributedTo(c.P, fn) {
+					got[f][af.Name()] = true
+					pos[f+"/"+af.Name()] = st.Pos()
+				}
 			}
 		}
 	}
